@@ -728,6 +728,12 @@ func (b *simBatch) write(sync bool) error {
 	b.d.apply(b.ops, sync, false)
 	b.closed = true
 	b.ops = nil
+	// the write is visible from here on: one more preemption point, so that a
+	// schedule can place another task between a physical write and whatever
+	// its issuer does next (e.g. the update of an in-memory cache)
+	if h := b.d.Hook; h != nil {
+		h(KBWrite + ".done")
+	}
 	return nil
 }
 
